@@ -366,6 +366,12 @@ def check_inclusive(ctx, out, rule="C02.incl"):
             for f in v.get("fields", []):
                 if f["ty"].startswith("std::ops::RangeInclusive<blockwatch::Position>"):
                     incl_fields.add(f["name"])
+    excl_fields = set()
+    for a in ctx.facts.adts.values():
+        for v in a.get("variants", []):
+            for f in v.get("fields", []):
+                if f["ty"].startswith("std::ops::Range<blockwatch::Position>"):
+                    excl_fields.add(f["name"])
     for b in ctx.reachable_bodies():
         if b.promoted is not None:
             continue
@@ -378,6 +384,19 @@ def check_inclusive(ctx, out, rule="C02.incl"):
                 if via and not P.has_const(labs):
                     out.viol(rule, "%s|%s|range-from-inclusive" % (rule, b.id), ctx.where(b, s["span"]),
                              "a half-open `Range<Position>` is built whose end is the (inclusive) end of `%s`: the last position of the inclusive range - for a start tag its closing `>` - is no longer inside" % [f for f in incl_fields if f in via[0][2]][0])
+        # (c) the other direction: no inclusive range built from the (exclusive) end of a half-open position
+        # range - the conversion needs `character - 1`, and for an end at column 1 the last position lies on
+        # the previous line: whatever is put there, the whole-line changes on the end's own line fall outside
+        for bi, t in b.calls():
+            if callee_matches(t, r"ops::RangeInclusive::<Idx>::new$") and len(t["args"]) == 2 and "blockwatch::Position" in " ".join(t.get("arg_tys") or []):
+                labs = ctx.prov.resolve_upvars(b, ctx.prov.read_operand(b, t["args"][1]))
+                for lab in labs:
+                    from_field = any(f in lab[2] for f in excl_fields) and "end" in lab[2]
+                    from_param = lab[0] == "param" and lab[2][:1] == ("end",) and re.match(r"&?(mut )?std::ops::Range<blockwatch::Position>", b.local_ty(lab[1]) if 1 <= lab[1] <= b.argc else "") is not None
+                    if from_field or from_param:
+                        out.viol(rule, "%s|%s|inclusive-from-range" % (rule, b.id), ctx.where(b, t["span"]),
+                                 "an inclusive `RangeInclusive<Position>` is built whose end derives from the exclusive end of a half-open position range: a change on the end's own line (the line of the end tag) is inside the half-open range's line span but outside the converted one")
+                        break
         # (a)
         if not b.parent:
             continue
